@@ -56,6 +56,18 @@ class Setup:
         self.sn = sn = nodekit.SingleNode(world, rng, "c20-%d" % idx, npeers=2)
         self.honest = list(sn.peers)
         self.g = objgen.Gen()
+        # in a third of the setups the node has just found a block ITSELF (through the real miner front end): the state the
+        # miner handed over is as much "the node's chain state" as one built from peers' blocks
+        self.mined_own = None
+        if rng.random() < 0.35:
+            try:
+                self.mined_own = nodekit.mine_with_real_miner(sn, world, rng)
+            except Exception:
+                self.mined_own = None
+            if self.mined_own is not None:
+                mon.c["setups_after_own_mined_block"] = mon.c.get("setups_after_own_mined_block", 0) + 1
+                for r in self.honest:
+                    r.take_received()
         # pool content
         head = world.cs.current_chain_hash
         used = set()
@@ -103,6 +115,7 @@ class Setup:
                 mon.c["setups_holding_unvalidated_bulk_blocks"] = mon.c.get("setups_holding_unvalidated_bulk_blocks", 0) + 1
         self.baseline_cs = sn.cm.coinstate
         self.baseline_buffer = list(sn.store.write_buffer)
+        world.now = sn.net.clock.t          # (the clock may have been moved on: rule codes are judged at the node's time)
         self.corpus = self.build_corpus()
 
     def build_corpus(self):
@@ -178,6 +191,9 @@ class Setup:
             head = sn.cm.coinstate.current_chain_hash
             if head not in world.chain.blocks:
                 world = self.tmp            # (the head is one of the bulk-download blocks delivered before the hostile phase)
+            if head not in world.chain.blocks:
+                self.mon.inconclusive.append("the node's head is a block the harness did not give it")
+                return name, "as-is", fr, True
             if rng.random() < 0.5:
                 used = {r for t in self.pooled for r in t.refs()}
                 t = world.make_rtx(head, rng, exclude=used, signer="ref")
@@ -752,6 +768,7 @@ def finalize(m, tier):
               ("frames_well_formed_but_invalid", c.get("frames_well_formed_but_invalid", 0), 200),
               ("streams_before_greeting", c.get("streams_before_greeting", 0), 300),
               ("noninterference_cases", c.get("noninterference_cases", 0), 200),
+              ("setups_after_own_mined_block", c.get("setups_after_own_mined_block", 0), 8),
               ("setups_holding_unvalidated_bulk_blocks", c.get("setups_holding_unvalidated_bulk_blocks", 0), 10),
               ("sends_failed_on_a_closed_connection", c.get("sends_failed_on_a_closed_connection", 0), 100),
               ("reads_failed_on_a_reset_connection", c.get("reads_failed_on_a_reset_connection", 0), 100),
